@@ -18,6 +18,16 @@ def run(tier, seed):
     for bug in ("clearall", "noflag"):
         r = tlc.model_check("MSSMModelMC.tla", "MSSMModel_%s.cfg" % bug, expect_violation="ConvergedOrWarned", workers=8, heap="4g")
         cx.add_model(r, "non-vacuity: variant '%s' must violate ConvergedOrWarned" % bug)
+    if tier == "thorough":
+        # unbounded precision values, goal and iteration limit: inductive invariant discharged by Apalache (MSSMModelInd.tla)
+        apa = []
+        for args in (["--cinit=CInit", "--init=Init", "--inv=IndInv", "--length=0"],
+                     ["--cinit=CInit", "--init=IndInit", "--inv=IndInv", "--length=1"],
+                     ["--cinit=CInit", "--init=IndInit", "--inv=Safety", "--length=0"]):
+            apa.append(tlc.run_apalache("MSSMModelInd.tla", args))
+        apa.append(tlc.run_apalache("MSSMModelInd.tla", ["--cinit=CInit", "--init=IndInit", "--next=NextBug", "--inv=IndInv", "--length=1"], expect_error=True))
+        cx.cov["apalache_inductive_invariant"] = {"spec": "MSSMModelInd.tla", "obligations": "Init => IndInv; IndInv /\\ Next => IndInv'; IndInv => Safety; "
+                                                  "wrong variant NextBug must fail the step", "runs": apa}
     cs = cases.get("C05")
     rnd = random.Random(seed)
     rnd.shuffle(cs)
